@@ -87,6 +87,19 @@ func gateFrame(vx *vaxis.Vaxis, m *screenmodel.Model) {
 		win.SetCell(i, 1, c)
 		m.SetCell(i, 1, c)
 	}
+	// a colour, the default, the same colour again (and a neighbour that falls on the same palette entry):
+	// what was sent before a reset is no longer in effect
+	for i, st := range []vaxis.Style{
+		{Foreground: vaxis.RGBColor(255, 0, 0), Background: vaxis.RGBColor(0, 0, 255)}, {},
+		{Foreground: vaxis.RGBColor(254, 1, 1), Background: vaxis.RGBColor(1, 1, 254)}, {},
+		{Foreground: vaxis.RGBColor(255, 0, 0), Background: vaxis.RGBColor(0, 0, 255)}} {
+		if 3+i >= m.Cols {
+			break
+		}
+		c := vaxis.Cell{Character: vaxis.Character{Grapheme: "r", Width: 1}, Style: st}
+		win.SetCell(3+i, 1, c)
+		m.SetCell(3+i, 1, c)
+	}
 }
 
 // absentReply: DECRPM status the swept terminal gives for optional modes it does not implement
